@@ -160,3 +160,21 @@ package cookies
 //@ prop C03 C05 C09 C18 C19
 //@ scan[stable:csrf-clock-only-read] field-writers csrf.time pkg/cookies.NewCSRF pkg/cookies.decodeCSRFCookie pkg/cookies.(*csrf).encodeCookie
 
+
+// ------------------------------------------------------------------ C02 / C03: the CSRF cookie's payload is encrypted and decrypted with a cipher keyed by the configured cookie secret
+//@ func makeCipher
+//@ prop C02 C03
+//@ ensures[cipher-keyed-by-the-cookie-secret] ret0 == ret0(NewCFBCipher) && ret1 == ret1(NewCFBCipher) && arg(NewCFBCipher, 0) == ret(SecretBytes)
+//@     && arg(SecretBytes, 0) == opts.Secret
+
+//@ func encrypt
+//@ prop C02 C03
+//@ ensures[no-cipher-no-ciphertext] called(makeCipher) && ret1(makeCipher) != nil ==> ret1 != nil && ret0 == nil
+//@ ensures[the-ciphers-encryption-of-the-data] ret1(makeCipher) == nil ==> called(Encrypt) && ret0 == ret0(Encrypt) && ret1 == ret1(Encrypt)
+//@     && arg(Encrypt, 0) == data && arg(makeCipher, 0) == opts
+
+//@ func decrypt
+//@ prop C02 C03
+//@ ensures[no-cipher-no-plaintext] called(makeCipher) && ret1(makeCipher) != nil ==> ret1 != nil && ret0 == nil
+//@ ensures[the-ciphers-decryption-of-the-data] ret1(makeCipher) == nil ==> called(Decrypt) && ret0 == ret0(Decrypt) && ret1 == ret1(Decrypt)
+//@     && arg(Decrypt, 0) == data && arg(makeCipher, 0) == opts
